@@ -381,3 +381,35 @@ pub fn fee_percentiles(net: Net) -> Result<Vec<u64>, String> {
         })
     })
 }
+
+/// The metrics endpoint (`http_request` with the given url), parsed: status code and the sample
+/// lines `name{labels} value [timestamp]` as (name-with-labels, value). Runs natively through the
+/// `verif_hooks` stand-ins for the three system calls in `api/metrics.rs`.
+pub fn http(url: &str) -> Result<(u16, Vec<(String, f64)>), String> {
+    guarded(|| {
+        let r = can::http_request(can::types::HttpRequest {
+            method: "GET".to_string(),
+            url: url.to_string(),
+            headers: vec![],
+            body: serde_bytes::ByteBuf::from(vec![]),
+        });
+        let mut out = vec![];
+        if r.status_code == 200 {
+            for line in String::from_utf8_lossy(&r.body).lines() {
+                if line.starts_with('#') || line.is_empty() {
+                    continue;
+                }
+                let mut it = line.split(' ');
+                let (Some(name), Some(val)) = (it.next(), it.next()) else { continue };
+                if let Ok(v) = val.parse::<f64>() {
+                    out.push((name.to_string(), v));
+                }
+            }
+        }
+        (r.status_code, out)
+    })
+}
+
+pub fn metric(m: &[(String, f64)], name: &str) -> Option<f64> {
+    m.iter().find(|(n, _)| n == name).map(|(_, v)| *v)
+}
